@@ -106,18 +106,53 @@ def _lin(node):
     raise ExtractionError('expression outside the linear grammar: ' + _u(node))
 
 
+def _test_literals(t):
+    """string-selection test -> (variable text, [literals]) or None.  Accepted forms:
+    `v == 'a'`, `v in ('a', 'b')` (tuple/list/set literal), and `or` of such tests on one v."""
+    if isinstance(t, ast.Compare) and len(t.ops) == 1 and len(t.comparators) == 1:
+        c = t.comparators[0]
+        if isinstance(t.ops[0], ast.Eq) and isinstance(c, ast.Constant) and \
+                isinstance(c.value, str):
+            return _u(t.left), [c.value]
+        if isinstance(t.ops[0], ast.In) and isinstance(c, (ast.Tuple, ast.List, ast.Set)) and \
+                c.elts and all(isinstance(e, ast.Constant) and isinstance(e.value, str)
+                               for e in c.elts):
+            return _u(t.left), [e.value for e in c.elts]
+        return None
+    if isinstance(t, ast.BoolOp) and isinstance(t.op, ast.Or):
+        parts = [_test_literals(v) for v in t.values]
+        if any(p is None for p in parts) or len(set(p[0] for p in parts)) != 1:
+            return None
+        return parts[0][0], [l for p in parts for l in p[1]]
+    return None
+
+
+def _chain_var(st):
+    """variable an if-statement selects on (by one of the accepted test forms), else None"""
+    if not isinstance(st, ast.If):
+        return None
+    r = _test_literals(st.test)
+    return r[0] if r else None
+
+
 def _eq_chain(node, var):
-    """if var == 'a': A elif var == 'b': B ... [else: E]  ->  ([(name, body)], else_body)"""
-    arms = []
+    """if var == 'a': A elif var in ('b', 'c'): B ... [else: E]  ->  ([(name, body)], else_body),
+    one entry per literal (a disjunctive arm is expanded).  A literal that occurs twice would
+    make a later arm partly unreachable: refused."""
+    arms, seen = [], set()
     while True:
         if not isinstance(node, ast.If):
             raise ExtractionError('expected an if/elif chain on ' + var)
-        t = node.test
-        if not (isinstance(t, ast.Compare) and len(t.ops) == 1 and isinstance(t.ops[0], ast.Eq)
-                and _u(t.left) == var and isinstance(t.comparators[0], ast.Constant)
-                and isinstance(t.comparators[0].value, str)):
-            raise ExtractionError('unexpected test {!r} in the chain on {}'.format(_u(t), var))
-        arms.append((t.comparators[0].value, node.body))
+        r = _test_literals(node.test)
+        if r is None or r[0] != var:
+            raise ExtractionError('unexpected test {!r} in the chain on {}'.format(
+                _u(node.test), var))
+        for lit in r[1]:
+            if lit in seen:
+                raise ExtractionError('literal {!r} occurs twice in the chain on {}'.format(
+                    lit, var))
+            seen.add(lit)
+            arms.append((lit, node.body))
         if len(node.orelse) == 1 and isinstance(node.orelse[0], ast.If):
             node = node.orelse[0]
             continue
@@ -156,7 +191,7 @@ def _leaf(stmts):
     return rows[0], rows[1], accs
 
 
-def _interior(stmts):
+def _interior_arm(stmts):
     """interior statements of one method -> band {offset: Fraction}"""
     if not stmts:
         raise ExtractionError('empty interior branch')
@@ -186,6 +221,114 @@ def _interior(stmts):
         else:
             raise ExtractionError('interior: unexpected statement ' + _u(st))
     return band
+
+
+SLICE_CALL_OFFSET = {'slice(2, None)': 1, 'slice(1, -1)': 0, 'slice(None, -2)': -1}
+MUTATORS = ('update', 'pop', 'popitem', 'setdefault', 'clear', '__setitem__', '__delitem__',
+            'append', 'extend', 'insert', 'remove')
+
+
+def _name_is_mutated(tree, name):
+    """True unless `name` is bound exactly once, by a module-level `name = …`, and nothing in the
+    module may change that object or binding afterwards: no other store/del of the name
+    anywhere (incl. function arguments, import aliases, `global`), no item/attribute store or
+    del on it, no augmented assignment, no call of a mutating method on it."""
+    top_assign = sum(1 for node in tree.body if isinstance(node, ast.Assign) and
+                     len(node.targets) == 1 and isinstance(node.targets[0], ast.Name) and
+                     node.targets[0].id == name)
+    stores = 0
+    for node in ast.walk(tree):
+        if isinstance(node, ast.Name) and node.id == name and \
+                isinstance(node.ctx, (ast.Store, ast.Del)):
+            stores += 1
+        if isinstance(node, ast.Global) and name in node.names:
+            return True
+        if isinstance(node, ast.Nonlocal) and name in node.names:
+            return True
+        if isinstance(node, ast.arg) and node.arg == name:
+            return True
+        if isinstance(node, ast.alias) and (node.asname or node.name) == name:
+            return True
+        if isinstance(node, (ast.Subscript, ast.Attribute)) and \
+                isinstance(node.ctx, (ast.Store, ast.Del)) and name in _u(node.value):
+            return True
+        if isinstance(node, ast.AugAssign) and name in _u(node.target):
+            return True
+        if isinstance(node, ast.Call) and isinstance(node.func, ast.Attribute) and \
+                name in _u(node.func.value) and node.func.attr in MUTATORS:
+            return True
+    return not (top_assign == 1 and stores == 1)
+
+
+def _interior(stmts, tree):
+    """the statements between the axis swap and the boundary chain -> {method: band}.
+    Form A: if/elif chain on `method`, each arm np.subtract/np.add on shifted slices [+ scaling].
+    Form B: `a, b, d = TABLE[method]` with TABLE a module-level dict literal
+            {method: (slice(..), slice(..), number | None)} that nothing mutates, then
+            `np.subtract(f_arr[a], f_arr[b], out=out[1:-1])`, then
+            `if d is not None: out[1:-1] /= d`.
+    Anything else: ExtractionError (only the interior-stencil obligation breaks)."""
+    if len(stmts) == 1 and _chain_var(stmts[0]) == 'method':
+        arms, els = _eq_chain(stmts[0], 'method')
+        if els:
+            raise ExtractionError('interior chain has an else branch')
+        if set(a for a, _ in arms) != set(METHODS) or len(arms) != 3:
+            raise ExtractionError('interior chain does not cover exactly the three methods')
+        return {m: _interior_arm(b) for m, b in arms}
+    if len(stmts) == 3:
+        s0, s1, s2 = stmts
+        if isinstance(s0, ast.Assign) and len(s0.targets) == 1 and \
+                isinstance(s0.targets[0], ast.Tuple) and len(s0.targets[0].elts) == 3 and \
+                all(isinstance(e, ast.Name) for e in s0.targets[0].elts) and \
+                isinstance(s0.value, ast.Subscript) and isinstance(s0.value.value, ast.Name) and \
+                _u(s0.value.slice) == 'method':
+            na, nb, nd_ = [e.id for e in s0.targets[0].elts]
+            tname = s0.value.value.id
+            if len({na, nb, nd_}) != 3 or {na, nb, nd_} & {'f_arr', 'out', 'method', 'pad_mode',
+                                                           'pad_const', 'dx', 'axis'}:
+                raise ExtractionError('interior table: unpacking shadows a name')
+            if _name_is_mutated(tree, tname):
+                raise ExtractionError('interior table {} is not a single module-level binding '
+                                      'that nothing mutates'.format(tname))
+            tdef = [n for n in tree.body if isinstance(n, ast.Assign) and
+                    any(isinstance(t, ast.Name) and t.id == tname for t in n.targets)][0]
+            if not isinstance(tdef.value, ast.Dict) or len(tdef.targets) != 1:
+                raise ExtractionError('interior table {} is not a dict literal'.format(tname))
+            rows = {}
+            for k, v in zip(tdef.value.keys, tdef.value.values):
+                if not (isinstance(k, ast.Constant) and isinstance(k.value, str)) or \
+                        k.value in rows or not isinstance(v, ast.Tuple) or len(v.elts) != 3:
+                    raise ExtractionError('interior table: unexpected entry ' + _u(v))
+                ua, ub = _u(v.elts[0]), _u(v.elts[1])
+                if ua not in SLICE_CALL_OFFSET or ub not in SLICE_CALL_OFFSET:
+                    raise ExtractionError('interior table: unexpected slices in ' + _u(v))
+                if isinstance(v.elts[2], ast.Constant) and v.elts[2].value is None:
+                    div = None
+                else:
+                    div = _num(v.elts[2])
+                    if div is None or div == 0:
+                        raise ExtractionError('interior table: unexpected divisor in ' + _u(v))
+                rows[k.value] = (SLICE_CALL_OFFSET[ua], SLICE_CALL_OFFSET[ub], div)
+            if set(rows) != set(METHODS):
+                raise ExtractionError('interior table keys are not the three methods')
+            fn = _u(s1.value.func) if isinstance(s1, ast.Expr) and \
+                isinstance(s1.value, ast.Call) else None
+            if fn not in ('np.subtract', 'np.add') or \
+                    _u(s1) != '{}(f_arr[{}], f_arr[{}], out=out[1:-1])'.format(fn, na, nb):
+                raise ExtractionError('interior table: unexpected statement ' + _u(s1))
+            if _u(s2) != 'if {} is not None:\n    out[1:-1] /= {}'.format(nd_, nd_):
+                raise ExtractionError('interior table: unexpected statement ' + _u(s2))
+            bands = {}
+            for m, (oa, ob, div) in rows.items():
+                band = {-1: Fraction(0), 0: Fraction(0), 1: Fraction(0)}
+                band[oa] += 1
+                band[ob] += 1 if fn == 'np.add' else -1
+                if div is not None:
+                    band = {k: q / div for k, q in band.items()}
+                bands[m] = band
+            return bands
+    raise ExtractionError('interior stencil code has a shape outside the grammar: ' +
+                          ' ; '.join(_u(x) for x in stmts)[:200])
 
 
 def _guards(body):
@@ -280,6 +423,23 @@ def _class_pins(cls):
     return pins, flags
 
 
+SWAP = ['out, out_in = (np.swapaxes(out, 0, axis), out)', 'f_arr = np.swapaxes(f_arr, 0, axis)']
+
+
+def _interior_region(body):
+    """(i, j): body[i:j] are the statements between the axis swap and the boundary chain (the
+    first if-chain on pad_mode after the swap whose arms hold the boundary rows); None if the
+    swap or the chain is not found."""
+    texts = [_u(st) for st in body]
+    for i in range(len(body) - 1):
+        if texts[i:i + 2] == SWAP:
+            for j in range(i + 2, len(body)):
+                if _chain_var(body[j]) == 'pad_mode':
+                    return (i + 2, j)
+            return None
+    return None
+
+
 def current_pins(tree):
     """Everything of diff_ops.py that the Lean model mirrors BY HAND (not regenerated): the
     prologue and epilogue of finite_diff and the four operator classes, as normalised text."""
@@ -289,10 +449,13 @@ def current_pins(tree):
         raise ExtractionError('finite_diff or one of the four classes not found')
     body = _strip_doc(fn[0].body)
     keep = []
-    for st in body:
-        if isinstance(st, ast.If) and isinstance(st.test, ast.Compare) and \
-                _u(st.test.left) in ('method', 'pad_mode') and isinstance(st.test.ops[0], ast.Eq):
-            keep.append('<chain on {}: regenerated>'.format(_u(st.test.left)))
+    region = _interior_region(body)
+    for i, st in enumerate(body):
+        if region is not None and region[0] <= i < region[1]:
+            if i == region[0]:
+                keep.append('<interior: regenerated>')
+        elif _chain_var(st) == 'pad_mode' and region is not None and i == region[1]:
+            keep.append('<chain on pad_mode: regenerated>')
         elif isinstance(st, ast.If) and 'f_arr.shape[axis] <' in _u(st.test):
             keep.append('<size guard: regenerated>')
         else:
@@ -358,40 +521,122 @@ def _laplacian_rejected(cls):
     return rej
 
 
+TABLE_NAMES = ('_SUPPORTED_DIFF_METHODS', '_SUPPORTED_PAD_MODES', '_ADJ_METHOD', '_ADJ_PADDING')
+
+
+def _live_tables(repo):
+    """The four module tables as the module under test has them after import (what the code
+    uses at run time), read in a subprocess so that this process's `odl` is not involved."""
+    import json
+    import subprocess
+    import sys
+    code = ('import json, odl.discr.diff_ops as d\n'
+            'print("TABLES=" + json.dumps({n: (dict(getattr(d, n)) if isinstance(getattr(d, n), dict)'
+            ' else list(getattr(d, n))) for n in %r}))' % (TABLE_NAMES,))
+    env = dict(os.environ, PYTHONPATH=repo, PYTHONDONTWRITEBYTECODE='1')
+    p = subprocess.run([sys.executable, '-c', code], env=env, cwd='/', stdout=subprocess.PIPE,
+                       stderr=subprocess.PIPE, text=True, timeout=300)
+    lines = [l for l in p.stdout.split('\n') if l.startswith('TABLES=')]
+    if p.returncode != 0 or len(lines) != 1:
+        raise ExtractionError('cannot import odl.discr.diff_ops from {} to read the tables: {}'
+                              .format(repo, p.stderr[-300:]))
+    return json.loads(lines[0][len('TABLES='):])
+
+
+def _module_tables(tree, repo):
+    """name -> (value, 'ast' | 'live').  A table that is a single literal binding which nothing
+    mutates is read from the AST.  Otherwise (built by code at import time) its value is taken
+    from the LIVE module of the tree under test - but only if nothing BELOW module level can
+    change it later (functions/classes may only read it); else refused."""
+    out, live = {}, None
+    for name in TABLE_NAMES:
+        val = None
+        if not _name_is_mutated(tree, name):
+            node = [n for n in tree.body if isinstance(n, ast.Assign) and
+                    isinstance(n.targets[0], ast.Name) and n.targets[0].id == name][0]
+            try:
+                val = ast.literal_eval(node.value)
+            except (ValueError, SyntaxError):
+                val = None
+        if val is not None:
+            out[name] = (val, 'ast')
+            continue
+        # built at import time: nothing inside a function/class may store to or mutate it
+        for fn in ast.walk(tree):
+            if isinstance(fn, (ast.FunctionDef, ast.AsyncFunctionDef, ast.ClassDef, ast.Lambda)):
+                sub = ast.Module(body=[fn] if not isinstance(fn, ast.Lambda) else
+                                 [ast.Expr(value=fn)], type_ignores=[])
+                for node in ast.walk(sub):
+                    bad = False
+                    if isinstance(node, ast.Name) and node.id == name and \
+                            isinstance(node.ctx, (ast.Store, ast.Del)):
+                        bad = True
+                    if isinstance(node, (ast.Global, ast.Nonlocal)) and name in node.names:
+                        bad = True
+                    if isinstance(node, (ast.Subscript, ast.Attribute)) and \
+                            isinstance(node.ctx, (ast.Store, ast.Del)) and name in _u(node.value):
+                        bad = True
+                    if isinstance(node, ast.AugAssign) and name in _u(node.target):
+                        bad = True
+                    if isinstance(node, ast.Call) and isinstance(node.func, ast.Attribute) and \
+                            name in _u(node.func.value) and node.func.attr in MUTATORS:
+                        bad = True
+                    if isinstance(node, ast.Call) and any(_u(a) == name for a in node.args):
+                        bad = True   # passed on to other code that might mutate it
+                    if bad:
+                        raise ExtractionError('{} may be changed after import: {}'.format(
+                            name, _u(node)[:80]))
+        if live is None:
+            live = _live_tables(repo)
+        out[name] = (live[name], 'live')
+    return out
+
+
+def _gen_bands_committed():
+    """bands (and den) of the last COMMITTED Gen/FiniteDiff.lean, for when the interior stencil
+    code cannot be read: the other artefacts are still regenerated around them."""
+    import re
+    import subprocess
+    rel = 'lean/OdlModel/Gen/FiniteDiff.lean'
+    p = subprocess.run(['git', '-C', core.VERIF, 'show', 'HEAD:' + rel], stdout=subprocess.PIPE,
+                       stderr=subprocess.PIPE, text=True)
+    text = p.stdout if p.returncode == 0 else open(os.path.join(core.VERIF, rel)).read()
+    den = int(re.search(r'def den : Nat := (\d+)', text).group(1))
+    bands = {}
+    for m, lm in METHODS.items():
+        mm = re.search(r'\| \.%s, \.\w+ => ⟨(-?\d+), (-?\d+), (-?\d+),' % lm, text)
+        bands[m] = {k: Fraction(int(v), den) for k, v in zip((-1, 0, 1), mm.groups())}
+    return bands
+
+
 def extract_data(repo=None):
+    """-> dict of artefacts.  `partial` lists artefacts that could NOT be read from the source and
+    were carried over from the last committed Gen file (only the interior stencil can be)."""
     repo = repo or core.REPO
     path = os.path.join(repo, 'odl', 'discr', 'diff_ops.py')
     with open(path) as f:
         tree = ast.parse(f.read())
-    lits, fn, classes = {}, None, {}
+    fn, classes = None, {}
     for node in tree.body:
-        if isinstance(node, ast.Assign) and len(node.targets) == 1 and \
-                isinstance(node.targets[0], ast.Name) and node.targets[0].id in (
-                    '_SUPPORTED_DIFF_METHODS', '_SUPPORTED_PAD_MODES', '_ADJ_METHOD',
-                    '_ADJ_PADDING'):
-            if node.targets[0].id in lits:
-                raise ExtractionError('{} assigned twice'.format(node.targets[0].id))
-            lits[node.targets[0].id] = ast.literal_eval(node.value)
-        elif isinstance(node, (ast.Assign, ast.AugAssign, ast.Expr)) and any(
-                nm in _u(node) for nm in ('_ADJ_METHOD', '_ADJ_PADDING', '_SUPPORTED_')):
-            raise ExtractionError('module-level statement touches the tables: ' + _u(node)[:80])
         if isinstance(node, ast.FunctionDef) and node.name == 'finite_diff':
             fn = node
         if isinstance(node, ast.ClassDef):
             classes[node.name] = node
-    if fn is None or len(lits) != 4:
-        raise ExtractionError('finite_diff or the module tables not found')
-    methods = list(lits['_SUPPORTED_DIFF_METHODS'])
-    pads = list(lits['_SUPPORTED_PAD_MODES'])
+    if fn is None:
+        raise ExtractionError('finite_diff not found')
+    tabs = _module_tables(tree, repo)
+    sources = {n: src for n, (_, src) in tabs.items()}
+    methods = list(tabs['_SUPPORTED_DIFF_METHODS'][0])
+    pads = list(tabs['_SUPPORTED_PAD_MODES'][0])
     for m in methods:
         if m not in METHODS:
             raise ExtractionError('unknown method ' + repr(m))
     for p in pads:
         if p not in PADS:
             raise ExtractionError('unknown pad mode ' + repr(p))
-    adj_m, adj_p = lits['_ADJ_METHOD'], lits['_ADJ_PADDING']
+    adj_m, adj_p = tabs['_ADJ_METHOD'][0], tabs['_ADJ_PADDING'][0]
     if not isinstance(adj_m, dict) or not isinstance(adj_p, dict):
-        raise ExtractionError('_ADJ_METHOD/_ADJ_PADDING are not dict literals')
+        raise ExtractionError('_ADJ_METHOD/_ADJ_PADDING are not dicts')
     if set(adj_m) != set(METHODS) or not set(adj_m.values()) <= set(METHODS):
         raise ExtractionError('_ADJ_METHOD keys/values are not the three methods: ' + repr(adj_m))
     if set(adj_p) != set(PADS) or not set(adj_p.values()) <= set(PADS):
@@ -402,23 +647,14 @@ def extract_data(repo=None):
         raise ExtractionError('finite_diff signature changed: ' + repr(args))
     body = _strip_doc(fn.body)
     guards = _guards(body)
-    # locate the two if-chains and check what follows them
-    chains = [i for i, st in enumerate(body) if isinstance(st, ast.If) and
-              isinstance(st.test, ast.Compare) and isinstance(st.test.ops[0], ast.Eq) and
-              _u(st.test.left) in ('method', 'pad_mode')]
-    if len(chains) != 2 or _u(body[chains[0]].test.left) != 'method' or \
-            _u(body[chains[1]].test.left) != 'pad_mode' or chains[1] != chains[0] + 1:
-        raise ExtractionError('expected the interior chain on `method` directly followed by the '
-                              'boundary chain on `pad_mode`')
-    pre = [_u(s) for s in body[chains[0] - 2:chains[0]]]
-    if pre != ['out, out_in = (np.swapaxes(out, 0, axis), out)',
-               'f_arr = np.swapaxes(f_arr, 0, axis)']:
-        raise ExtractionError('axis swap before the interior changed: ' + repr(pre))
-    post = [_u(s) for s in body[chains[1] + 1:]]
+    region = _interior_region(body)
+    if region is None:
+        raise ExtractionError('axis swap followed by the boundary chain on `pad_mode` not found')
+    post = [_u(s) for s in body[region[1] + 1:]]
     if post != ['out /= dx', 'return out_in']:
         raise ExtractionError('statements after the boundary tree changed: ' + repr(post))
-    # nothing between the guards and the swap may write to out / f_arr
-    for st in body[:chains[0] - 2]:
+    # nothing before the swap may write into an array
+    for st in body[:region[0] - 2]:
         for sub in ast.walk(st):
             if isinstance(sub, (ast.Assign, ast.AugAssign)):
                 tg = sub.targets if isinstance(sub, ast.Assign) else [sub.target]
@@ -426,22 +662,21 @@ def extract_data(repo=None):
                     if isinstance(t, ast.Subscript) and _u(t.value) in ('out', 'f_arr', 'f'):
                         raise ExtractionError('prologue writes into an array: ' + _u(sub))
 
-    arms, els = _eq_chain(body[chains[0]], 'method')
-    if els:
-        raise ExtractionError('interior chain has an else branch')
-    if [a for a, _ in arms] != sorted([a for a, _ in arms], key=['central', 'forward', 'backward'].index) \
-            or set(a for a, _ in arms) != set(METHODS):
-        raise ExtractionError('interior chain does not cover exactly the three methods')
-    bands = {m: _interior(b) for m, b in arms}
+    partial = {}
+    try:
+        bands = _interior(body[region[0]:region[1]], tree)
+    except ExtractionError as e:
+        bands = _gen_bands_committed()
+        partial['interior stencil'] = str(e)
 
-    parms, pels = _eq_chain(body[chains[1]], 'pad_mode')
+    parms, pels = _eq_chain(body[region[1]], 'pad_mode')
     if len(pels) != 1 or not _u(pels[0]).startswith('raise NotImplementedError('):
         raise ExtractionError('boundary chain must end in `else: raise NotImplementedError`')
     if set(p for p, _ in parms) != set(PADS) or len(parms) != len(PADS):
         raise ExtractionError('boundary chain does not cover exactly the ten pad modes')
     leaves = {}
     for p, pbody in parms:
-        if len(pbody) == 1 and isinstance(pbody[0], ast.If):
+        if len(pbody) == 1 and _chain_var(pbody[0]) == 'method':
             marms, mels = _eq_chain(pbody[0], 'method')
             if mels or set(m for m, _ in marms) != set(METHODS) or len(marms) != 3:
                 raise ExtractionError('pad mode {}: method chain does not cover exactly the '
@@ -461,7 +696,8 @@ def extract_data(repo=None):
             dens += [q.denominator for q in e.values()]
     den = lcm(2, *dens)
     return dict(methods=methods, pads=pads, adj_m=adj_m, adj_p=adj_p, guards=guards, bands=bands,
-                leaves=leaves, den=den, lap_rejected=lap_rejected, flags=flags)
+                leaves=leaves, den=den, lap_rejected=lap_rejected, flags=flags,
+                partial=partial, sources=sources)
 
 
 def _terms(e, den):
@@ -535,9 +771,13 @@ def extract(repo=None):
 
 
 def regenerate(repo=None):
-    lean = extract(repo)
-    return core.write_if_changed(
-        os.path.join(core.LEAN, 'OdlModel', 'Gen', 'FiniteDiff.lean'), lean)
+    """-> (changed, partial, sources): `partial` = artefacts carried over from the committed Gen
+    file because their source code could not be read (each is a broken obligation);
+    `sources` = where each module table came from ('ast' literal or 'live' module)."""
+    d = extract_data(repo)
+    changed = core.write_if_changed(
+        os.path.join(core.LEAN, 'OdlModel', 'Gen', 'FiniteDiff.lean'), render(d))
+    return changed, d['partial'], d['sources']
 
 
 if __name__ == '__main__':
